@@ -66,6 +66,8 @@ func tokensConsume(tokens []token) ([]token, []token) {
 		// strip escapes, such as ` from `foo`, this allows to use keywords as field names
 		length := len(t.str)
 		if length == 0 {
+			// Only a quoted string can be empty: keep it, it is an operand.
+			consumed = append(consumed, t)
 			continue
 		}
 		if length >= 2 && t.str[0] == '`' && t.str[length-1] == '`' {
